@@ -26,7 +26,15 @@ fn script(tag: &str) -> String {
     )
 }
 
-const BAD_SCRIPTS: &[&str] = &["{run: {|| 1}}", "{run: {|frame| ", "{norun: 1}", "this is not nu ((("];
+const BAD_SCRIPTS: &[&str] = &[
+    "{run: {|| 1}}",
+    "{run: {|frame| ",
+    "{norun: 1}",
+    "this is not nu (((",
+    // a configuration that does not parse makes the script invalid as a whole
+    "{return_options: {ttl: \"head:0\"}, run: {|frame| 1}}",
+    "{return_options: {ttl: \"never\"}, run: {|frame| 1}}",
+];
 
 pub fn run_case(seed: u64) -> CaseResult {
     let mut res = CaseResult::default();
